@@ -14,7 +14,7 @@ CLAUSE = {1: "failed-op-had-effect", 2: "exception-class-changed", 3: "deciding-
           7: "registrations-differ-from-twin", 8: "unmodelled-values-differ-from-twin"}
 CORR = {1: "outcome", 2: "state", 3: "handler-log", 4: "fired", 5: "twin-state", 6: "registrations"}
 EXNS = ["TraitError", "ValueError", "AttributeError", "RuntimeError"]
-OPAQUE = ["ObsRemove", "ObsAdd", "AddZ", "SetZ"]      # operations outside the Gallina model (law only)
+OPAQUE = ["ObsRemove", "ObsAdd", "AddZ", "SetZ", "SetAdE", "SetW", "SetPW"]      # operations outside the Gallina model (law only)
 
 
 def st_term(s):
@@ -54,6 +54,8 @@ def op_term(op, echo, before):
         return C(k, op[1], op[2])
     if k in ("LAssign", "LExtend", "LIadd", "SUpdate"):
         return C(k, list(op[1]))
+    if k == "SUpdate2":            # update(it1, it2): every item of every iterable is validated before the set changes
+        return C("SUpdate", list(op[1]) + list(op[2]))
     if k == "SAssign":
         return C(k, _in_call_order(list(dict.fromkeys(op[1])), echo))
     if k in ("SIxor", "SSymDiff"):
@@ -113,6 +115,12 @@ def ncalls(op):
     k = op[0]
     if k in ("SetX", "LAppend", "LInsert", "SAdd", "ReadF", "ReadM", "ReadP", "SetP", "ReadC", "SetXQ"):
         return 1
+    if k == "SUpdate2":
+        return len(op[1]) + len(op[2])
+    if k == "SetAdE":
+        return op[1]
+    if k in ("SetW", "SetPW"):
+        return 0
     if k in ("ObsRemove", "ObsAdd"):
         return 24          # the user filter is called once per trait of the object (about 20)
     if k in ("AddZ", "SetZ"):
@@ -150,11 +158,19 @@ def gen_op(rnd):
                     "DAssign", "DSetItem", "DUpdate", "DUpdate", "DSetDefault", "SAssign", "SAdd", "SUpdate", "SUpdate",
                     "ReadF", "ReadM", "ReadP", "SetP", "ReadC", "ReadC", "SetAd", "SetAd", "SIxor", "SIxor", "SSymDiff",
                     "SetY", "SetY", "ReadY", "SetAd2", "SetAd2", "SetXQ", "SetXQ", "ObsRemove", "ObsAdd", "AddZ", "AddZ",
-                    "SetZ", "SetZ"])
+                    "SetZ", "SetZ", "SUpdate2", "SUpdate2", "SetAdE", "SetAdE", "SetW", "SetW", "SetPW"])
     if k in ("SetX", "LAppend", "SAdd", "SetY", "SetXQ"):
         return [k, item()]
     if k == "SetZ":
         return [k, rnd.randint(0, 3), rnd.randint(0, 9)]
+    if k == "SUpdate2":
+        return [k, items(0, 3), items(0, 3)]
+    if k == "SetAdE":
+        return [k, rnd.randint(0, 1), rnd.randint(0, 9)]
+    if k == "SetW":
+        return [k, rnd.randint(0, 9)]
+    if k == "SetPW":
+        return [k, rnd.randint(0, 1), rnd.randint(0, 9)]
     if k in ("SIxor", "SSymDiff"):
         return [k, sorted(set(items(0, 5)))]
     if k == "SetAd2":
@@ -187,13 +203,16 @@ def gen_plan(rnd, op):
         # the user filter runs inside the trait_added notification there (handler context, exceptions contained):
         # only handler faults are injected into these operations
         return None if rnd.random() < 0.7 else ["handler", 6, rnd.choice(EXNS)]
+    if op[0] in ("SetW", "SetPW"):
+        # the partner's validator runs inside the sync handler, which contains its exceptions by design
+        return None if rnd.random() < 0.5 else ["handler", 8, rnd.choice(EXNS)]
     r = rnd.random()
     if r < 0.35:
         return None
     if r < 0.8:
         n = ncalls(op)
         return ["call", rnd.randint(0, max(n, 1)) if rnd.random() < 0.85 else rnd.randint(0, n + 2), rnd.choice(EXNS)]
-    return ["handler", rnd.randint(0, 7), rnd.choice(EXNS)]
+    return ["handler", rnd.randint(0, 8), rnd.choice(EXNS)]
 
 
 def gen_case(rnd, ctx, maxlen):
@@ -216,10 +235,15 @@ TEMPLATES = [["SetX", 5], ["SetX", 1], ["SetX", 101], ["SetT", 3, 4], ["SetT", 3
              ["ReadC"], ["SetAd", 0, 3], ["SetAd", 1, 3], ["SetAd", 2, 3],
              ["SIxor", [1, 2, 3]], ["SIxor", [1, 5, 100]], ["SSymDiff", [1, 4, 6]], ["SetY", 5], ["SetY", 43], ["SetY", 100],
              ["ReadY"], ["SetAd2", 0, 3], ["SetAd2", 1, 3], ["SetAd2", 2, 3], ["SetAd2", None, 3],
-             ["SetXQ", 5], ["SetXQ", 100], ["ObsRemove"], ["ObsAdd"]]
+             ["SetXQ", 5], ["SetXQ", 100], ["ObsRemove"], ["ObsAdd"], ["SUpdate2", [4, 5], [6, 7]],
+             ["SUpdate2", [4], [100, 5]], ["SetAdE", 1, 3], ["SetAdE", 0, 3], ["SetW", 5], ["SetPW", 1, 6]]
 FOLLOW = [["SetX", 6], ["LExtend", [1, 2]], ["DUpdate", [[2, 2]]], ["SUpdate", [5]], ["ReadF"], ["ReadM"], ["ReadC"],
           ["SetP", 8], ["SetAd", 2, 4], ["SIxor", [1, 8]], ["SetY", 7], ["SetAd2", 1, 5], ["AddZ"], ["SetZ", 0, 4],
-          ["SetX", 3]]
+          ["SetX", 3], ["SetW", 7], ["SetPW", 0, 2], ["SetW", 4]]
+
+
+HANDLERS_OF = {"SetX": [0, 1, 2, 7, 3], "LAppend": [3, 4, 0], "LExtend": [3, 4], "LIadd": [3, 4], "LInsert": [3, 4],
+               "LSetSlice": [3, 4], "LAssign": [3, 4], "SetY": [5, 0], "SetXQ": [0, 2], "SetW": [8, 0], "SetPW": [8]}
 
 
 def systematic():
@@ -232,7 +256,7 @@ def systematic():
         for k in ks:
             for e in EXNS:
                 cs.append(dict(ops=[[tpl, ["call", k, e]]] + [[f, None] for f in FOLLOW]))
-        for j in range(8):
+        for j in HANDLERS_OF.get(tpl[0], [0]):       # the handlers this operation can reach (+ one it cannot, as control)
             for e in EXNS:
                 cs.append(dict(ops=[[tpl, ["handler", j, e]]] + [[f, None] for f in FOLLOW]))
     return cs
@@ -254,7 +278,7 @@ def run(ctx):
                        "the steps. A case is non-trivial if at least one injected fault fired; distinct = distinct "
                        "(operation, plan) lists")
     rnd = random.Random(ctx.seed)
-    n, maxlen = (400, 8) if ctx.tier == "quick" else (12000, 14)
+    n, maxlen = (350, 8) if ctx.tier == "quick" else (12000, 14)
     if ctx.replay:
         cases = [json.load(open(ctx.replay))["replay"]["case"]]
     else:
